@@ -54,6 +54,9 @@ def cases(tier, seed):
     for i, k1 in enumerate(S):
         yield dict(kind='dict2', maxlen=2 if tier == 'quick' else 3, k1=k1)
     yield dict(kind='delims')
+    # keywords and values with blanks, tabs, line ends around and inside them (returned exactly as written)
+    for blank in (' ', '\t', '\n', '\x0c'):
+        yield dict(kind='dict-blank', blank=blank, maxlen=3)
     for delim in '/|\\, *~:;!#%&()+-.<=>?@[]^_`{}\'"' + 'aZ':   # not '$': standard keywords start with it
         yield dict(kind='files', delim=delim, tier=tier)
 
@@ -203,6 +206,26 @@ def run_case(c):
                     assert textref.parse(s, D, supp) == dict(pairs), (s, pairs)   # reference self-check
                     judge(res, s, supp)
         res.sample({'pairs': [('x/', 'y'), ('xy', '/'.join('xy'))], 'encoded': textref.encode([('x/', 'y')], D)})
+        return res
+    if k == 'dict-blank':
+        S = strs('x' + c['blank'] + '/', c['maxlen'])
+        for a in S:
+            for b in S:
+                for supp, leading in ((False, True), (True, True), (True, False)):
+                    s = textref.encode([(a, b)], D, leading=leading)
+                    assert textref.parse(s, D, supp) == {a: b}, (s, a, b)   # reference self-check
+                    judge(res, s, supp)
+        # two pairs, blanks at either end of each value
+        bl = c['blank']
+        for v1 in ('x', bl + 'x', 'x' + bl, bl + 'x' + bl, bl, bl + bl, 'x' + bl + '/'):
+            for v2 in ('y', bl + 'y', 'y' + bl, bl, '/' .join(['y', bl])):
+                for k2 in ('k2', 'k' + bl + '2', 'k2' + bl):
+                    pairs = [('k1', v1), (k2, v2)]
+                    for supp, leading in ((False, True), (True, True), (True, False)):
+                        s = textref.encode(pairs, D, leading=leading)
+                        assert textref.parse(s, D, supp) == dict(pairs), (s, pairs)
+                        judge(res, s, supp)
+        res.sample({'alphabet': ['x', c['blank'], '/'], 'max_length': c['maxlen']})
         return res
     if k == 'delims':
         for code in range(1, 127):
